@@ -29,16 +29,6 @@ def judge(ctx):
     return out
 
 
-def projection(ctx):
-    ok, why = E.model_ok(ctx)
-    if not ok:
-        return ok, why
-    m = ctx.m
-    if m.get("model") == "ok" and ctx.ok and m.get("model:erase_ok") != m.get("erase_ok"):
-        return False, "eraser verdicts differ (model %s, implementation %s)" % (m.get("model:erase_ok"), m.get("erase_ok"))
-    return True, ""
-
-
 def nontrivial(ctx):
     return ctx.modified
 
